@@ -634,7 +634,10 @@ fn run_miri_tier(id: &str, n: usize, max_tape: usize, seed: u64) -> Result<(u64,
 fn fuzz_target_for(id: &str) -> Option<(&'static str, u64)> {
     match id {
         "C01" | "C02" | "C03" | "C04" | "C05" | "C07" | "C08" | "C09" | "C14" => Some(("solve_oracles", 60_000)),
-        "C10" | "C11" | "C12" | "C13" => Some(("async_sched", 40_000)),
+        "C10" | "C11" | "C13" => Some(("async_sched", 40_000)),
+        // one C12 input is up to 48 cancelled solves, some over unions of a thousand version sets
+        // (instrumented build): 40 000 runs took 35 minutes
+        "C12" => Some(("async_sched", 10_000)),
         "C18" | "C19" => Some(("containers", 60_000)),
         "C16" | "C20" => Some(("snapshot_cache", 60_000)),
         _ => None,
